@@ -79,6 +79,20 @@ def run_one(job):
                         pass
             else:
                 res['status'] = 'MISSED'
+                # a seeded change recorded as decided by ANOTHER property's check (meta.detected_by): run that one
+                mp = os.path.join(os.path.dirname(patch), 'meta.json')
+                det = json.load(open(mp)).get('detected_by', {}) if os.path.exists(mp) else {}
+                for c in sorted(det):
+                    if c == pid or not det[c].get('violation'):
+                        continue
+                    env = dict(os.environ, CELLO_REPO=rd, VERIF_SEED='1')
+                    rc, o = sh([sys.executable, 'check.py', c, '--tier', 'quick'], cwd=vd, env=env, timeout=3600)
+                    viol = [l for l in o.splitlines() if l.startswith('VIOLATION')]
+                    outs.append({'seed': 1, 'check': c, 'rc': rc, 'violation': viol[:1]})
+                    if rc == 1 and viol:
+                        res['status'] = 'CAUGHT' + ('-no-failing-input' if 'no-failing-input-found' in viol[0] else '')
+                        res['caught_by'] = c
+                        break
         else:
             res['status'] = 'SILENT' if all(r['rc'] == 0 and not r['violation'] for r in outs) else 'FALSE-ALARM'
         shutil.rmtree(vd, ignore_errors=True)
